@@ -1,9 +1,5 @@
 package mocrelay
 
-import (
-	"context"
-)
-
 func init() {
 	vpHarnesses["vpH_C18_quota"] = vpH_C18_quota
 	vpHarnesses["vpH_C18_unique"] = vpH_C18_unique
@@ -26,17 +22,19 @@ func vpIndexOf(l []string, v string) int {
 	return -1
 }
 
-// C18 quota: N free (>= 1); two sessions; REQ/CLOSE steps with symbolic 1-byte
-// ids. Ghost open-set per session.
+// C18 quota, through the exported constructor: N free (>= 1); two real sessions of the
+// same middleware value; REQ/CLOSE steps with symbolic 1-byte ids. Ghost open-set per
+// session. (Earlier versions drove the unexported base objects and so prescribed where
+// the state lives; two correct refactorings were reported because of that.)
 func vpH_C18_quota() {
 	n := vpInt("N")
-	vpAssume(n >= 1 && n <= 1<<20) // the session state pre-sizes a map with N+1 buckets
-	base := newSimpleMaxSubscriptionsMiddlewareBase(n)
-	var ctxs [2]context.Context
-	for i := range ctxs {
-		c, err := base.ServeNostrStart(context.Background())
-		vpAssert(err == nil, "C18.start")
-		ctxs[i] = c
+	vpAssume(n >= 1 && n <= 1<<20) // the session state may pre-size a table with N+1 buckets
+	inner := &vpInner{}
+	h := NewMaxSubscriptionsMiddleware(n)(inner)
+	var ss [2]*vpMWSess
+	for i := range ss {
+		ss[i] = vpStartSession(h, inner)
+		vpAssert(ss[i].inner != nil, "C18.start")
 	}
 	open := [2][]string{}
 	steps := vpSteps(4, 5)
@@ -45,39 +43,50 @@ func vpH_C18_quota() {
 		id := vpSym1("id")
 		if vpChoice("op", 2) == 0 {
 			msg := &ClientReqMsg{SubscriptionID: id, ReqFilters: []*ReqFilter{{}}}
-			cm, sm, err := base.ServeNostrClientMsg(ctxs[s], msg)
+			fwd, rep := ss[s].client(msg)
 			allowed := vpIndexOf(open[s], id) >= 0 || len(open[s]) < n
-			vpCheckVerdict("C18.quota", msg, allowed, cm, sm, err)
+			vpVerdict("C18.quota", msg, allowed, fwd, rep)
 			if allowed && vpIndexOf(open[s], id) < 0 {
 				open[s] = append(open[s], id)
 			}
 		} else {
 			msg := &ClientCloseMsg{SubscriptionID: id}
-			cm, sm, err := base.ServeNostrClientMsg(ctxs[s], msg)
-			vpCheckVerdict("C18.quota-close", msg, true, cm, sm, err)
+			fwd, rep := ss[s].client(msg)
+			vpVerdict("C18.quota-close", msg, true, fwd, rep)
 			if i := vpIndexOf(open[s], id); i >= 0 {
 				open[s] = append(open[s][:i:i], open[s][i+1:]...)
 			}
 		}
 		vpAssert(len(open[0]) <= n && len(open[1]) <= n, "C18.quota-at-most-N-open")
 	}
-	vpCheckServerPass("C18.quota", base, ctxs[0])
+	// server messages pass unchanged
+	sm := vpGenServerMsg("s")
+	out := ss[0].server(sm)
+	vpAssert(len(out) == 1, "C18.quota.server-pass-one")
+	if len(out) == 1 {
+		vpAssert(vpUnchanged(out[0], sm), "C18.quota.server-pass-unchanged")
+	}
+	for i := range ss {
+		ss[i].cancel()
+	}
 	vpReach("end")
 }
 
-// C18 unique filters: the real hashicorp/golang-lru is executed. size in
-// {1,2,3}; EVENT steps with symbolic 1-byte ids. Ghost recency list.
+// C18 unique filters, through the exported constructors (the real hashicorp/golang-lru or
+// whatever the implementation uses is executed). size in {1,2,3}; EVENT steps with symbolic
+// 1-byte ids on one session; ghost recency list.
 func vpH_C18_unique() {
 	size := 1 + vpChoice("size", 3)
 	recvSide := vpChoice("side", 2) == 0
-	var rbase *simpleRecvEventUniqueFilterMiddlewareBase
-	var sbase *simpleSendEventUniqueFilterMiddlewareBase
+	inner := &vpInner{}
+	var h Handler
 	if recvSide {
-		rbase = newSimpleRecvEventUniqueFilterMiddlewareBase(size)
+		h = NewRecvEventUniqueFilterMiddleware(size)(inner)
 	} else {
-		sbase = newSimpleSendEventUniqueFilterMiddlewareBase(size)
+		h = NewSendEventUniqueFilterMiddleware(size)(inner)
 	}
-	ctx := context.Background()
+	ss := vpStartSession(h, inner)
+	vpAssert(ss.inner != nil, "C18.start")
 	var recent []string // most recent first, distinct
 	steps := vpSteps(5, 6)
 	for k := 0; k < steps; k++ {
@@ -86,10 +95,7 @@ func vpH_C18_unique() {
 		inWindow := i >= 0 && i < size
 		if recvSide {
 			msg := &ClientEventMsg{Event: &Event{ID: id, Tags: []Tag{}}}
-			cm, sm, err := rbase.ServeNostrClientMsg(ctx, msg)
-			vpAssert(err == nil, "C18.unique-no-error")
-			fwd := vpDrainClient(cm)
-			rep := vpDrainServer(sm)
+			fwd, rep := ss.client(msg)
 			if inWindow {
 				vpAssert(len(fwd) == 0, "C18.unique-repeat-not-forwarded")
 				vpAssert(len(rep) == 1, "C18.unique-repeat-answered-once")
@@ -106,9 +112,7 @@ func vpH_C18_unique() {
 			// an id seen earlier but outside the window may go either way per the statement
 		} else {
 			msg := NewServerEventMsg("s", &Event{ID: id, Tags: []Tag{}})
-			ch, err := sbase.ServeNostrServerMsg(ctx, msg)
-			vpAssert(err == nil, "C18.unique-no-error")
-			out := vpDrainServer(ch)
+			out := ss.server(msg)
 			if inWindow {
 				vpAssert(len(out) == 0, "C18.unique-send-repeat-dropped")
 			} else if i < 0 {
@@ -125,44 +129,50 @@ func vpH_C18_unique() {
 		recent = append([]string{id}, recent...)
 	}
 	// other message types are untouched by both filters
+	m := &ClientCloseMsg{SubscriptionID: "x"}
+	fwd, rep := ss.client(m)
+	vpVerdict("C18.unique", m, true, fwd, rep)
 	if recvSide {
-		m := &ClientCloseMsg{SubscriptionID: "x"}
-		cm, sm, err := rbase.ServeNostrClientMsg(ctx, m)
-		vpCheckVerdict("C18.unique", m, true, cm, sm, err)
-		vpCheckServerPass("C18.unique", rbase, ctx)
-	} else {
-		m := &ClientEventMsg{Event: &Event{ID: "x", Tags: []Tag{}}}
-		cm, sm, err := sbase.ServeNostrClientMsg(ctx, m)
-		vpCheckVerdict("C18.unique", m, true, cm, sm, err)
+		sm := NewServerEOSEMsg("x")
+		out := ss.server(sm)
+		vpAssert(len(out) == 1 && vpUnchanged(out[0], sm), "C18.unique.server-pass-unchanged")
 	}
+	ss.cancel()
 	vpReach("end")
 }
 
-// C18: the de-duplication state is per connection: each session served by the
-// middleware gets its own base object (NewSimpleMiddleware stubbed to capture it).
+// C18: the de-duplication state is per connection: an id seen on one connection has not
+// been seen on another connection of the same middleware value.
 func vpH_C18_perconn() {
-	if !vpSymbolic() {
-		vpReach("end")
-		return
-	}
-	var bases []SimpleMiddlewareBase
-	vpStub("github.com/high-moctane/mocrelay.NewSimpleMiddleware", func(b SimpleMiddlewareBase) Middleware {
-		bases = append(bases, b)
-		return func(h Handler) Handler { return h }
-	})
-	inner := HandlerFunc(func(ctx context.Context, send chan<- ServerMsg, recv <-chan ClientMsg) error { return nil })
+	inner := &vpInner{}
+	recvSide := vpChoice("side", 2) == 0
 	var h Handler
-	if vpChoice("side", 2) == 0 {
+	if recvSide {
 		h = NewRecvEventUniqueFilterMiddleware(2)(inner)
 	} else {
 		h = NewSendEventUniqueFilterMiddleware(2)(inner)
 	}
-	for i := 0; i < 2; i++ {
-		vpAssert(h.ServeNostr(context.Background(), nil, nil) == nil, "C18.perconn-serve")
+	a := vpStartSession(h, inner)
+	b := vpStartSession(h, inner)
+	vpAssert(a.inner != nil && b.inner != nil, "C18.perconn-serve")
+	id := vpSym1("id")
+	if recvSide {
+		m1 := &ClientEventMsg{Event: &Event{ID: id, Tags: []Tag{}}}
+		fwd, _ := a.client(m1)
+		vpAssert(len(fwd) == 1, "C18.unique-unseen-forwarded")
+		m2 := &ClientEventMsg{Event: &Event{ID: id, Tags: []Tag{}}}
+		fwd, rep := b.client(m2)
+		vpAssert(len(fwd) == 1 && len(rep) == 0, "C18.perconn-state-not-shared")
+		// and it IS a repeat on the first connection
+		fwd, rep = a.client(m1)
+		vpAssert(len(fwd) == 0 && len(rep) == 1, "C18.unique-repeat-not-forwarded")
+	} else {
+		m1 := NewServerEventMsg("s", &Event{ID: id, Tags: []Tag{}})
+		vpAssert(len(a.server(m1)) == 1, "C18.unique-send-unseen-delivered")
+		vpAssert(len(b.server(NewServerEventMsg("s", &Event{ID: id, Tags: []Tag{}}))) == 1, "C18.perconn-state-not-shared")
+		vpAssert(len(a.server(m1)) == 0, "C18.unique-send-repeat-dropped")
 	}
-	vpAssert(len(bases) == 2, "C18.perconn-one-state-per-session")
-	if len(bases) == 2 {
-		vpAssert(!vpSameObject(bases[0], bases[1]), "C18.perconn-state-not-shared")
-	}
+	a.cancel()
+	b.cancel()
 	vpReach("end")
 }
